@@ -18,7 +18,7 @@ def run(tier, seed):
     # its first offender meets Go's randomised map iteration), validated repeatedly in both modes
     multi = os.path.join(wd, "multi.ndjson")
     common.run([vh, "gen-multibad", "-seed", str(seed), "-n", str(12 if quick else 200), "-out", multi])
-    args = ["-seed", seed, "-bases", 3 if quick else 0, "-edits", 12 if quick else 60, "-double", 0.5, "-repeat", 6 if quick else 10]
+    args = ["-seed", seed, "-bases", 3 if quick else 12, "-edits", 12 if quick else 40, "-double", 0.5, "-repeat", 6 if quick else 8]   # measured: all fixtures x 10 repetitions ran > 1 h
     # open finding FirstFoundUnresolved: honoured (messages compared up to the reference named) only while its witness still flips
     known = common.Known().devs("C10")
     if "FirstFoundUnresolved" in known:
@@ -37,6 +37,6 @@ def run(tier, seed):
                               "operations (case-twin names, several undefined required properties, several duplicate operation ids, overlapping paths, circular ancestries next to other offenders); each is "
                               "validated %d times per mode, interleaved with the other documents, in 8+ processes. Trace_SpecRun.tla keeps first[doc, mode] and checks Deterministic, Monotone (errors(stop) "
                               "subset of errors(continue)), validity = absence of errors, returned warnings = attached warnings, and that every phase trace is a run of SpecValidator.tla. distinct = distinct "
-                              "documents that load." % (6 if quick else 10))
+                              "documents that load." % (6 if quick else 8))
     check.assumptions = ["message sets are compared by interned message text", "circular-ancestry messages are compared verbatim (no document of the quick tier has more than one cycle member to name)"]
     return check.finish()
